@@ -6,8 +6,8 @@
   item  :=  p | e id bytes
   pad   :=  none | some filler-bytes
 
-  c03.wire  wire bytes                     => un hn re reUn
-  c03.mut   bytes                          => un hn re reUn
+  c03.wire  wire bytes <n> q*              => un hn re reUn <n> id* <n> obytes*
+  c03.mut   bytes <n> q*                   => un hn re reUn <n> id* <n> obytes*
   c03.view  kind(1|2|3) blk bytes <n> q* fill => unm ids <n> get* marshal size <n> to*
   blk   :=  none | some ext(≠0)
 
@@ -52,22 +52,25 @@ def rdObs : Rd Pred.C03.Obs := do
   let hn ← Rd.resC Rd.nat
   let re ← rdBytesRes
   let ru ← Rd.resC rdPacket
-  pure { un := un, hn := hn, re := re, reUn := ru }
+  let ids ← Rd.list Rd.u8
+  let gets ← Rd.list Rd.obytes
+  pure { un := un, hn := hn, re := re, reUn := ru, ids := ids, gets := gets }
 
 /-- `c03.wire` -/
 def c03wire : Handler :=
   mkHandler
-    (do let w ← rdWire; let b ← Rd.bytes
-        if w.encode != b then Rd.fail else pure (w, b))
+    (do let w ← rdWire; let b ← Rd.bytes; let qs ← Rd.list Rd.u8
+        if w.encode != b then Rd.fail else pure (w, b, qs))
     rdObs
-    (fun (_, b) => Pred.C03.modelObs b)
-    (fun (w, b) o => Pred.C03.wire w b o)
-    (fun (w, _) => w.WF && !w.reserved)
-    (fun (w, _) _ => if Pred.C03.reservedRegion w then some "c03_reserved_id" else none)
+    (fun (_, b, qs) => Pred.C03.modelObs b qs)
+    (fun (w, b, qs) o => Pred.C03.wire w b qs o)
+    (fun (w, _, _) => w.WF && !w.reserved)
+    (fun (w, _, _) _ => if Pred.C03.reservedRegion w then some "c03_reserved_id" else none)
 
 /-- `c03.mut` -/
 def c03mut : Handler :=
-  mkHandler Rd.bytes rdObs Pred.C03.modelObs (fun _ o => Pred.C03.mutOK o)
+  mkHandler (do let b ← Rd.bytes; let qs ← Rd.list Rd.u8; pure (b, qs)) rdObs
+    (fun (b, qs) => Pred.C03.modelObs b qs) (fun _ o => Pred.C03.mutOK o)
 
 def rdViewKind : Rd ViewKind := do
   let t ← Rd.nat
